@@ -180,7 +180,7 @@ func TestC10_MgrxCleanup(t *testing.T) {
 		} else if withError {
 			_ = r.mgr.(closer).CloseDataTransferChannelWithError(bg(), c.chid, fmt.Errorf("boom"))
 		} else {
-			_ = r.mgr.CloseDataTransferChannel(bg(), c.chid)
+			_ = r.closeCh(c.chid)
 		}
 		r.settle(c.chid)
 		r.syncAll()
